@@ -31,7 +31,7 @@ struct TypeName<char32_t> {
     static const char *get() { return "char32_t"; }
 };
 
-enum OpKind { CTOR_DEFAULT, CTOR_PTR, CTOR_FILL, CTOR_COPY, CTOR_MOVE, DTOR, ASSIGN_COPY, ASSIGN_MOVE, ALLOCATE, ALLOCATE_FILL, CLEAR, CTOR_FILL0, ALLOCATE_FILL0 };
+enum OpKind { CTOR_DEFAULT, CTOR_PTR, CTOR_FILL, CTOR_COPY, CTOR_MOVE, DTOR, ASSIGN_COPY, ASSIGN_MOVE, ALLOCATE, ALLOCATE_FILL, CLEAR, CTOR_FILL0, ALLOCATE_FILL0, ALLOCATE_FILL_OWN };
 struct Op {
     OpKind k;
     int i, j;  // slots
@@ -114,6 +114,7 @@ struct BufSys {
         case CTOR_MOVE: return !slots[o.i].alive && slots[o.j].alive;
         case DTOR:
         case ALLOCATE:
+        case ALLOCATE_FILL_OWN: return slots[o.i].alive && slots[o.i].obj()->size() > 0;
         case ALLOCATE_FILL0:
         case ALLOCATE_FILL:
         case CLEAR: return slots[o.i].alive;
@@ -131,6 +132,7 @@ struct BufSys {
         case CTOR_FILL: return strf("new(s%d) buffer(%zu,'x')", o.i, o.n);
         case CTOR_FILL0: return strf("new(s%d) buffer(%zu,NUL)", o.i, o.n);
         case ALLOCATE_FILL0: return strf("s%d.allocate(%zu,NUL)", o.i, o.n);
+        case ALLOCATE_FILL_OWN: return strf("s%d.allocate(%zu, s%d[0])", o.i, o.n, o.i);
         case CTOR_COPY: return strf("new(s%d) buffer(s%d)", o.i, o.j);
         case CTOR_MOVE: return strf("new(s%d) buffer(std::move(s%d))", o.i, o.j);
         case DTOR: return strf("s%d.~buffer()", o.i);
@@ -371,6 +373,11 @@ struct BufSys {
                 LIB(bi->allocate(o.n, T()));
                 okind = "allocate-fill";
                 break;
+            case ALLOCATE_FILL_OWN:
+                expect = Str(o.n, (*bi)[0]);
+                LIB(bi->allocate(o.n, (*bi)[0]));
+                okind = "allocate-fill(own element)";
+                break;
             case CTOR_COPY:
                 expect = src_val;
                 LIB(new (bi) B(*static_cast<const B *>(bj)));
@@ -518,6 +525,18 @@ struct BufSys {
                 Str r(b.rbegin(), b.rend());
                 if (r != Str(v.rbegin(), v.rend())) fail("reverse-iterators", "rbegin()..rend() wrong");
                 if (b.to_std_string() != v) fail("to_std_string", "to_std_string() wrong");
+                if (!v.empty()) {
+                    // allocate(n, fill) with the fill value taken from the buffer itself, on a copy (as an operation of the explored
+                    // world it would multiply the value space): the argument is a value, whatever happens to the old storage
+                    for (size_t n : {size_t(LL - 1), size_t(LL), size_t(2 * LL)}) {
+                        B t(b);
+                        LIB(t.allocate(n, t[0]));
+                        n_reads += 1;
+                        if (Str(t.data(), t.size()) != Str(n, v[0])) fail("allocate-fill(own element)", strf("copy.allocate(%zu, copy[0]) does not hold %zu copies of the first element", n, n));
+                        LIB(t.allocate(n, t.back()));
+                        if (Str(t.data(), t.size()) != Str(n, v[0])) fail("allocate-fill(own element)", strf("copy.allocate(%zu, copy.back()) wrong", n));
+                    }
+                }
                 {
                     // the non-const accessors of the same (live) object; nothing is written through them
                     B &mb = *slots[s].obj();
